@@ -1925,6 +1925,20 @@ package gocql
 //@   loop 0: step listInfo.proto <= 2 ==> len(buf.buf) == prev(len(buf.buf)) + 2 + len(Marshal_ret0) && be16(buf.buf, prev(len(buf.buf))) == uint16(len(Marshal_ret0))
 //@   loop 0: step forall(k, 0 <= k && k < prev(len(buf.buf)), buf.buf[k] == prev(buf.buf[k]))
 
+// tuple framing ([]interface{} form of the value): one [bytes] per element in order - length -1 for a null element
+// (untyped nil, or whatever Marshal encodes as null, e.g. a nil pointer), else the length and the bytes
+//@ func marshalTuple
+//@   props C12 C02
+//@   count_calls Marshal
+//@   scenario value: []interface{}
+//@   requires info != nil && typeis(info, TupleTypeInfo)
+//@   assume forall(k, 0 <= k && k < len(unbox(info, TupleTypeInfo).Elems), unbox(info, TupleTypeInfo).Elems[k] != nil)
+//@   loop 0: invariant -1 <= rangeindex && rangeindex < len(v) && len(v) == len(tuple.Elems)
+//@   loop 0: step Marshal_calls == prev(Marshal_calls) + 1 && Marshal_ret0 == nil ==> len(buf) == prev(len(buf)) + 4 && be32(buf, prev(len(buf))) == 0xffffffff
+//@   loop 0: step Marshal_calls == prev(Marshal_calls) + 1 && Marshal_ret0 != nil ==> len(buf) == prev(len(buf)) + 4 + len(Marshal_ret0) && be32(buf, prev(len(buf))) == uint32(len(Marshal_ret0))
+//@   loop 0: step Marshal_calls == prev(Marshal_calls) ==> len(buf) == prev(len(buf)) + 4 && be32(buf, prev(len(buf))) == 0xffffffff
+//@   loop 0: step forall(k, 0 <= k && k < prev(len(buf)), buf[k] == prev(buf[k]))
+
 // map framing: after the entry count, every entry is its key and then its value, each as a length ([int] from
 // protocol 3 with -1 exactly for a null - not for an empty - item, [short] before) followed by the bytes.
 //@ func marshalMap
